@@ -7,6 +7,7 @@ import numpy as np
 
 from harness.common import rat, rat_list, parse_rat_lists, MachineryError
 from harness.props import gridlib as G
+from harness.props.c10 import coord_arrays, count_shared
 
 MAXLIVE = 7
 NONMUT = ('new', 'copy', 'scaled', 'shifted', 'reversed', 'rotated', 'protated', 'as', 'pshifted')
@@ -275,6 +276,90 @@ def observe(grids):
     return out
 
 
+def grid_arrays(g):
+    """the ndarray objects a grid holds and writes to in place: its coordinate arrays, then the stored weights if they are an array"""
+    a = coord_arrays(g)
+    w = g._weights
+    if isinstance(w, np.ndarray) and w.ndim >= 1:
+        a = a + [w]
+    return a
+
+
+def ref_ops(kind, op, ncoord, has_w, snap):
+    """array operations of an in-place scale / shift / polar rotate on a grid (`ncoord` coordinate arrays, a weights array or not)"""
+    reg = snap['kind'] == 'reg'
+    ndim = snap['points'].shape[1]
+    wop = 'k'
+    if kind == 'scale':
+        a = op[2]
+        f = [a[1]] * ndim if a[0] == 's' else list(a[1])
+        jac = abs(float(a[1])) ** ndim if a[0] == 's' else float(np.prod(np.abs(f)))
+        if snap['sys'] == 'p':
+            f = [a[1], 1.0]
+        ops = ['mv:' + rat_list(f)] * 2 if reg else ['ms:' + rat(x) for x in f]
+        wop = 'ms:' + rat(jac)
+    else:
+        if kind == 'shift':
+            b = [op[2][1]] * ndim if op[2][0] == 's' else list(op[2][1])
+        else:
+            b = [0.0, angle_of(op[2])]
+        ops = ['k', 'av:' + rat_list(b)] if reg else ['as:' + rat(x) for x in b]
+    if len(ops) != ncoord:
+        return None
+    return ops + ([wop] if has_w else [])
+
+
+def ref_plan(steps):
+    """`ref …` requests mirroring a history on the reference model (Model/GridHeap.lean), with what to compare after each step"""
+    lines = ['C11 ref reset']
+    checks = []
+    nobj = 0
+    gobj = []
+    prev = []
+    for st in steps:
+        if st['status'] != 'ok':
+            break
+        op, kind = st['op'], st['op'][0]
+        vals = st['refvals']
+        base_kind = {'scaled': 'scale', 'shifted': 'shift', 'protated': 'protate'}.get(kind, kind)
+        ops = None
+        if base_kind in ('scale', 'shift', 'protate'):
+            src = st['before'][op[1]]
+            tgt = vals[-1] if kind in NONMUT else vals[op[1]]
+            if len(tgt) == len(prev[op[1]]):
+                ncoord = 2 if src['kind'] == 'reg' else src['points'].shape[1]
+                ops = ref_ops(base_kind, op, ncoord, len(prev[op[1]]) > ncoord, src)
+        if kind in NONMUT:
+            if kind == 'copy':
+                lines.append('C11 ref copy %d' % gobj[op[1]])
+            elif ops is not None:
+                lines.append('C11 ref copied %d %s' % (gobj[op[1]], ' '.join(ops)))
+            else:
+                lines.append('C11 ref new ' + G.rat_lists(vals[-1]))
+            gobj.append(nobj)
+            nobj += 1
+        elif ops is not None:
+            lines.append('C11 ref inplace %d %s' % (gobj[op[1]], ' '.join(ops)))
+        else:
+            # reverse / rotate / reading .weights / polar shift / an operation that materialises the weights:
+            # the grid's arrays are re-bound to new ones — a fresh object takes its place
+            lines.append('C11 ref new ' + G.rat_lists(vals[op[1]]))
+            gobj[op[1]] = nobj
+            nobj += 1
+        if len(gobj) != len(vals):
+            raise MachineryError('reference model: %d objects for %d live grids' % (len(gobj), len(vals)))
+        shared_at = len(lines)
+        lines.append('C11 ref shared')
+        at = []
+        for k, o in enumerate(gobj):
+            at.append((len(lines), vals[k]))
+            lines.append('C11 ref val %d' % o)
+        checks.append((shared_at, st['shared'], at, op, 'inplace' if (ops is not None and kind not in NONMUT) else
+                       'copied' if ops is not None else 'copy' if kind == 'copy' else 'fresh'))
+        prev = vals
+    return lines, checks
+
+
 def run_history(case):
     grids = []
     steps = []
@@ -284,6 +369,8 @@ def run_history(case):
         status = apply_real(grids, op, pool)
         ch = pool.changed()
         steps.append({'op': op, 'status': status, 'before': before, 'after': observe(grids),
+                      'shared': count_shared([a for g in grids for a in grid_arrays(g)] + list(pool.arrays)),
+                      'refvals': [[[float(v) for v in np.asarray(a).ravel()] for a in grid_arrays(g)] for g in grids],
                       'caller_changed': [(list(pool.keys[k])[:6], pool.arrays[k].tolist()[:6]) for k in ch]})
         if status != 'ok':
             break
@@ -874,6 +961,7 @@ def run(ctx):
         cases.append(gen_ctor(ctx.rng, big=(ctx.tier == 'thorough' and k % 4 == 0)))
     all_lines = []
     plan = []
+    ref_plans = []
     for case in cases:
         fam = case['family']
         ctx.count('family:' + fam)
@@ -935,6 +1023,9 @@ def run(ctx):
             ctx.case(case if len(ctx.samples) < 3 else None, nontrivial_key=sig if len(steps) > 1 else None)
             plan.append(('history', case, steps, len(all_lines), marks))
             all_lines += lines
+            rlines, rchecks = ref_plan(steps)
+            ref_plans.append((case, len(all_lines), rchecks))
+            all_lines += rlines
         else:
             bad, lines, checks = check_ctor(case)
             for key, what in bad:
@@ -944,6 +1035,23 @@ def run(ctx):
             plan.append(('ctor', case, checks, len(all_lines), None))
             all_lines += lines
     out = ctx.model(all_lines)
+    for case, rbase, rchecks in ref_plans:
+        for shared_at, real_shared, vals, op, how in rchecks:
+            ctx.traces_validated += 1
+            ctx.count('ref:' + how)
+            ans = out[rbase + shared_at]
+            if ans != 'ok %d' % real_shared:
+                dis(ctx, 'C11 ref shared', {'case': case, 'after': op, 'impl-shared-array-pairs': real_shared, 'model': ans})
+                break
+            bad = None
+            for at, real in vals:
+                ma = parse_rat_lists(out[rbase + at].split(' ', 1)[1]) if out[rbase + at].startswith('ok ') else None
+                if ma is None or len(ma) != len(real) or not all(G.lists_close(a, b) for a, b in zip(ma, real)):
+                    bad = {'case': case, 'after': op, 'impl': [r[:8] for r in real], 'model': out[rbase + at][:200]}
+                    break
+            if bad is not None:
+                dis(ctx, 'C11 ref values', bad)
+                break
     for kind, case, data, base_i, marks in plan:
         if kind == 'history':
             for st, m in zip(data, marks):
